@@ -216,8 +216,16 @@ def run(ctx):
                     ob5.loc(ob5.line), detail=str(rd), fail="DirList::obtain no longer lists exactly the given path with tokio's read_dir (%s): the entries are stripped of a different "
                     "prefix than the one that was opened, so a non-canonical directory lists as empty" % rd)
         wn5 = [f for f in facts.fns_matching(r"^watchexec_cli::filterer::WatchexecFilterer::new") if f.kind == "coroutine"]
-        vt_args = [[_px5.desc(a).lstrip("^") for a in nd["a"]] for g in wn5 for c, nd in thir.calls_in(thir.root(g)) if _sg5(c).endswith("dirs::vcs_types")]
-        ctx.require(vt_args == [["project_origin"]], "R20.5", "cli-types-of-origin", "the CLI asks for the VCS types of the project origin", detail=str(vt_args),
+        vt_args = []
+        for g in wn5:
+            _px5.SUBST = _px5.let_substitutions(thir.root(g))      # a local bound once is read through to its initialiser
+            try:
+                vt_args += [[_px5.desc(a).replace("^", "") for a in nd["a"]] for c, nd in thir.calls_in(thir.root(g)) if _sg5(c).endswith("dirs::vcs_types")]
+            finally:
+                _px5.SUBST = {}
+        okvt = len(vt_args) == 1 and len(vt_args[0]) == 1 and "args.filtering.project_origin" in vt_args[0][0] and not any(
+            x in vt_args[0][0] for x in ("workdir", "Path::parent", "Path::join", "Path::ancestors"))
+        ctx.require(okvt, "R20.5", "cli-types-of-origin", "the CLI asks for the VCS types of the project origin", detail=str(vt_args),
                     fail="the CLI asks for the project types of %s instead of the project origin: the wrong VCS's ignore files are honoured or dropped" % vt_args)
         vt = [f for f in facts.fns_matching(r"^watchexec_cli::dirs::vcs_types") if f.kind == "coroutine"]
         okv = False
